@@ -332,7 +332,10 @@ class Facts:
         flow (closure bodies spliced in): see flatten.py.  Cached per body."""
         import flatten
         if body.path not in self._flat:
-            raw, n = flatten.desugar_combinators(body.raw, lambda dp: (self.by_path.get(dp) or [None])[0].raw if self.by_path.get(dp) else None)
+            def look(dp):
+                c = self.by_path.get(dp) or self.by_spath.get(strip_generics(dp or "")) or []
+                return c[0].raw if len(c) >= 1 and (dp in self.by_path or len(c) == 1) else None
+            raw, n = flatten.desugar_combinators(body.raw, look)
             fb = Body(self, raw) if n else body
             fb.n_desugared = n
             self._flat[body.path] = fb
